@@ -630,6 +630,8 @@ func genC11(rng *rand.Rand, seed uint64, tier string) *Script {
 	vwOp := func() Op {
 		op := Op{K: "vw", W: rng.IntN(g.Wallets), Price: c11Price}
 		switch k := rng.IntN(100); {
+		case k < 20:
+			op.Mut = "transfer_covered_by_rewards"
 		case k < 35:
 			op.Mut = "withdrawRewards"
 		case k < 55:
@@ -690,6 +692,10 @@ func genC11(rng *rand.Rand, seed uint64, tier string) *Script {
 			}
 			op.Price = c11Price
 			ops = append(ops, op)
+		}
+		if !twin && rng.IntN(2) == 0 {
+			// a generous fee: the next block distributes it, so that delegators have whole coins of rewards pending
+			ops = append(ops, Op{K: "bank", W: 1 + rng.IntN(g.Wallets-1), To: "w0", Val: "1", Price: "100000000000000", Gas: "200000"})
 		}
 		if !twin && rng.IntN(2) == 0 {
 			ops = append(ops, vwOp()) // the view witness is the last tx of its block
